@@ -23,6 +23,7 @@ import (
 	"fmt"
 	"io"
 	"os"
+	"os/exec"
 	"path/filepath"
 	"sort"
 	"strings"
@@ -396,16 +397,26 @@ type docsRun struct {
 	bufSize  int
 	err      error
 	nrec     int
+	fault    string
+	mustFail bool // the stream leaves requested ids unanswered: the run has to report an error
 }
 
 // rich: every record is a text blob that is indexed with its content (so that any overwriting of a pending
 // document's bytes is visible)
 func newDocsRun(r *gen.Rand, malformed, rich bool, tmp string) *docsRun {
-	d := &docsRun{sizeMax: gen.Pick(r, []int{4, 10, 25, 60}), branches: map[gitindex.VerifKey][]string{}}
+	return newDocsRunFault(r, malformed, rich, "", tmp)
+}
+
+// fault: the cat-file process stops answering before all requested ids were served (killed, crashed, stdin cut):
+// its output ends "at-boundary" (after a complete entry), "in-header", "in-content" or "before-lf" of entry m.
+// Keys without an answer must make the run fail, never a successful index without their documents.
+func newDocsRunFault(r *gen.Rand, malformed, rich bool, fault string, tmp string) *docsRun {
+	d := &docsRun{fault: fault, sizeMax: gen.Pick(r, []int{4, 10, 25, 60}), branches: map[gitindex.VerifKey][]string{}}
 	d.nrec = r.Range(1, 6)
 	if rich {
 		d.sizeMax = 60
 	}
+	var starts, hdrEnds, ends []int
 	for k := 0; k < d.nrec; k++ {
 		rc := genRec(r, false, 30)
 		if rich {
@@ -424,7 +435,10 @@ func newDocsRun(r *gen.Rand, malformed, rich bool, tmp string) *docsRun {
 		if rc.kind == "blob" {
 			rc.raw = []byte(fmt.Sprintf("%040x blob %d\n%s\n", k, len(rc.content), rc.content))
 		}
+		starts = append(starts, len(d.stream))
+		hdrEnds = append(hdrEnds, len(d.stream)+bytes.IndexByte(rc.raw, '\n')+1)
 		d.stream = append(d.stream, rc.raw...)
+		ends = append(ends, len(d.stream))
 		name := fmt.Sprintf("f%02d", k)
 		a := byte('0')
 		if r.Chance(1, 3) {
@@ -444,6 +458,29 @@ func newDocsRun(r *gen.Rand, malformed, rich bool, tmp string) *docsRun {
 			d.want = append(d.want, "large:-")
 		default:
 			d.want = append(d.want, expectedCode(rc.content, d.sizeMax, a == '1', false, "cat-file"))
+		}
+	}
+	if fault != "" {
+		m := r.Intn(d.nrec)
+		switch fault {
+		case "at-boundary":
+			d.stream, d.mustFail = d.stream[:starts[m]], true
+		case "in-header":
+			d.stream, d.mustFail = d.stream[:starts[m]+r.Range(1, hdrEnds[m]-starts[m]-1)], true
+		case "in-content", "before-lf":
+			if ends[m]-hdrEnds[m] < 2 { // no content bytes (missing / excluded / empty blob): cut at the boundary instead
+				d.stream, d.mustFail = d.stream[:starts[m]], true
+			} else {
+				cut := ends[m] - 1
+				if fault == "in-content" {
+					cut = hdrEnds[m] + r.Intn(ends[m]-1-hdrEnds[m])
+				}
+				d.stream = d.stream[:cut]
+				d.mustFail = m < d.nrec-1 // the cut entry itself may legitimately be skipped without being read
+				for i := m; i < len(d.want); i++ {
+					d.want[i] = "*"
+				}
+			}
 		}
 	}
 	var err error
@@ -489,10 +526,17 @@ func (d *docsRun) finishStage(w *gen.Writer, schedule string) {
 			}
 		}
 		impl = joinOr(outs, ",")
+		if d.mustFail {
+			verdict = fmt.Sprintf("cat-file output ended %s with requested ids unanswered, but indexCatfileBlobs reported success: documents %s", d.fault, impl)
+			schedule = "short-stream:" + d.fault
+		}
 	} else {
 		d.builder.Finish()
 	}
 	os.RemoveAll(d.dir)
+	if d.fault != "" {
+		w.Count("docs:fault:"+d.fault, 1)
+	}
 	class := "docs:" + schedule + ":ok"
 	if d.err != nil {
 		class = "docs:" + schedule + ":error"
@@ -506,6 +550,11 @@ func docsCases(w *gen.Writer, r *gen.Rand, n int, tmp string) {
 	for i := 0; i < n; i++ {
 		rich := i%4 == 1 || i%4 == 2 || i%8 == 3
 		a := newDocsRun(r, i%9 == 8 && !rich, rich, tmp)
+		if i%4 == 0 { // solo runs: two out of three with a cat-file process that stops early
+			if fault := []string{"", "at-boundary", "in-header", "", "in-content", "before-lf"}[(i/4)%6]; fault != "" {
+				a = newDocsRunFault(r, false, false, fault, tmp)
+			}
+		}
 		switch i % 4 {
 		case 0:
 			a.catfileStage()
@@ -955,6 +1004,14 @@ func runRepo(w *gen.Writer, sp repoSpec, tmp string) {
 		results[pi] = readIndexDir(indexDir)
 	}
 
+	// ---- fault: the `git cat-file --batch` child stops answering after the first half of the requested ids (a `git`
+	// wrapper first in PATH forwards only that many ids). The real IndexGitRepo must fail, or else deliver every document.
+	if missingHash == "" && len(collected) >= 2 {
+		served := len(collected) / 2
+		verdict, class := catfileFault(dir, repoDir, sp, served, len(results[1]))
+		w.Emit(gen.Case{Go: verdict, Key: "catfile-fault-silent-loss", Class: "e2e:catfile-fault:" + class, Nontrivial: true, Detail: detail})
+	}
+
 	// ---- collect: the real prepareNormalBuild vs the model
 	var ptab []string
 	var brSpecs []string
@@ -1062,6 +1119,51 @@ func runRepo(w *gen.Writer, sp repoSpec, tmp string) {
 			Impl: fmt.Sprintf("g=%s c=%s", gd, cdoc), Key: k, Class: "e2e:doc:" + strings.SplitN(gd, ":", 2)[0], Nontrivial: true, Detail: detail,
 		})
 	}
+}
+
+// catfileFault indexes the repository through the cat-file path with a git whose `cat-file --batch` sees only the
+// first `served` ids; wantDocs is the number of documents the undisturbed cat-file run produced.
+func catfileFault(dir, repoDir string, sp repoSpec, served, wantDocs int) (verdict, class string) {
+	realGit, err := exec.LookPath("git")
+	if err != nil {
+		panic(err)
+	}
+	bin := filepath.Join(dir, "faultbin")
+	os.MkdirAll(bin, 0o755)
+	script := fmt.Sprintf("#!/bin/sh\nif [ \"$1\" = cat-file ] && [ \"$2\" = --batch ]; then\n  head -n %d | %s \"$@\"\n  exit 0\nfi\nexec %s \"$@\"\n", served, realGit, realGit)
+	if err := os.WriteFile(filepath.Join(bin, "git"), []byte(script), 0o755); err != nil {
+		panic(err)
+	}
+	oldPath := os.Getenv("PATH")
+	os.Setenv("PATH", bin+string(os.PathListSeparator)+oldPath)
+	os.Setenv("ZOEKT_DISABLE_CATFILE_BATCH", "false")
+	defer func() {
+		os.Setenv("PATH", oldPath)
+		os.Unsetenv("ZOEKT_DISABLE_CATFILE_BATCH")
+	}()
+	indexDir := filepath.Join(dir, "idxfault")
+	os.MkdirAll(indexDir, 0o755)
+	opts := gitindex.Options{
+		RepoDir:  repoDir,
+		Branches: sp.Indexed,
+		BuildOptions: index.Options{
+			IndexDir:              indexDir,
+			RepositoryDescription: zoekt.Repository{Name: "repository"},
+			DisableCTags:          true,
+			SizeMax:               sp.SizeMax,
+			LargeFiles:            largeFiles,
+		},
+	}
+	opts.BuildOptions.SetDefaults()
+	_, _, err = gitindex.VerifNormalFiles(opts)
+	if err != nil {
+		return "ok", "reported-error"
+	}
+	got := len(readIndexDir(indexDir))
+	if got != wantDocs {
+		return fmt.Sprintf("git cat-file answered only %d of the requested ids, IndexGitRepo reported success with %d of %d documents", served, got, wantDocs), "silent-loss"
+	}
+	return "ok", "complete"
 }
 
 func trunc(b []byte) string {
